@@ -42,6 +42,7 @@ type Event struct {
 	Times  []int    `json:"times"`
 	Valid  bool     `json:"valid"`
 	Files  bool     `json:"files"`
+	Reads  [][]Op   `json:"reads"` // ReadMerged: what every reader saw (several reads on each replica)
 }
 
 func sha(b []byte) string {
@@ -438,7 +439,108 @@ func runSession(seed uint64, backend string) []*Event {
 			s.readEvent("gogit:replica", bb, perr, s.repoB)
 		}
 	}
+	if backend == "gogit" && s.r.n(2) == 0 {
+		s.mergedPhase(b)
+	}
 	return s.events
+}
+
+// mergedPhase: both replicas hold the bug; each appends to it at the same time, both merge, and everybody reads several times.
+func (s *session) mergedPhase(b *bug.Bug) {
+	resolvers := entity.Resolvers{&identity.Identity{}: identity.NewSimpleResolver(s.repoB)}
+	bb, err := bug.Read(s.repoB, b.Id())
+	if err != nil {
+		return // already reported by the replica read
+	}
+	nb := len(bb.Operations())
+	for k := 0; k < 1+s.r.n(3); k++ {
+		au, err := identity.ReadLocal(s.repoB, s.authors[s.r.n(len(s.authors))].Id())
+		hx.Must(err)
+		s.unix++
+		if s.r.n(3) == 0 {
+			_, err = bug.SetTitle(bb, au, s.unix, s.r.oneLine(), s.r.metadata())
+		} else {
+			_, _, err = bug.AddComment(bb, au, s.unix, s.r.message(), nil, s.r.metadata())
+		}
+		hx.Must(err)
+	}
+	hx.Must(bb.Commit(s.repoB))
+	remote := s.opsOf(bb)[nb:]
+	// the same moment on A
+	before := len(b.Operations())
+	for k := 0; k < 1+s.r.n(3); k++ {
+		s.appendOne(b)
+	}
+	all := s.opsOf(b)
+	s.events = append(s.events, &Event{Ev: "Append", Eid: b.Id().String(), Ops: all[before:], Stored: []string{}, Times: []int{0, 0}})
+	ev := &Event{Ev: "Commit", Ops: []Op{}, Stored: []string{}, Times: []int{0, 0}}
+	if err := b.Commit(s.repoA); err != nil {
+		ev.Err = err.Error()
+		s.events = append(s.events, ev)
+		return
+	}
+	ev.Eid, ev.Ops = b.Id().String(), s.opsOf(b)
+	head, err := s.repoA.ResolveRef("refs/bugs/" + b.Id().String())
+	hx.Must(err)
+	ev.Stored, ev.Packs = s.storedSince(head)
+	if ev.Stored == nil {
+		ev.Stored = []string{}
+	}
+	s.lastHead = head
+	ev.Times = []int{int(b.CreateLamportTime()), int(b.EditLamportTime())}
+	s.events = append(s.events, ev)
+	// exchange: A pushes, B merges and pushes, A fast-forwards
+	rm := &Event{Ev: "ReadMerged", Eid: b.Id().String(), Ops: remote, Stored: []string{}, Times: []int{0, 0}, Valid: true, Files: true, Reads: [][]Op{}}
+	fail := func(err error) bool {
+		if err != nil {
+			rm.Err = err.Error()
+			s.events = append(s.events, rm)
+			return true
+		}
+		return false
+	}
+	_, err = bug.Push(s.repoA, "origin")
+	if fail(err) {
+		return
+	}
+	merger, err := identity.ReadLocal(s.repoB, s.authors[0].Id())
+	hx.Must(err)
+	if fail(bug.Pull(s.repoB, resolvers, "origin", merger)) {
+		return
+	}
+	_, err = bug.Push(s.repoB, "origin")
+	if fail(err) {
+		return
+	}
+	resolversA := entity.Resolvers{&identity.Identity{}: identity.NewSimpleResolver(s.repoA)}
+	if fail(bug.Pull(s.repoA, resolversA, "origin", s.authors[0])) {
+		return
+	}
+	for k := 0; k < 12; k++ {
+		repo := repository.ClockedRepo(s.repoA)
+		if k%2 == 1 {
+			repo = s.repoB
+		}
+		rb, err := bug.Read(repo, b.Id())
+		if fail(err) {
+			return
+		}
+		rm.Reads = append(rm.Reads, s.opsOf(rb))
+		if verr := rb.Validate(); verr != nil {
+			rm.Valid, rm.Err = false, "validate: "+verr.Error()
+		}
+		for _, op := range rb.Operations() {
+			if wf, ok := op.(dag.OperationWithFiles); ok {
+				for _, h := range wf.GetFiles() {
+					data, err := repo.ReadData(h)
+					if err != nil || !bytes.Equal(data, s.files[h]) {
+						rm.Files, rm.Err = false, fmt.Sprintf("file %s of operation %s is missing or differs after the merge", h, op.Id())
+					}
+				}
+			}
+		}
+	}
+	s.events = append(s.events, rm)
 }
 
 type item struct {
@@ -467,15 +569,18 @@ func Run(args []string) {
 	}
 	res := hx.Isolated("fidelity-worker", items, 0)
 	for _, r := range res {
-		out.Put(&Event{Ev: "Reset", Ops: []Op{}, Stored: []string{}, Times: []int{0, 0}})
+		out.Put(&Event{Ev: "Reset", Ops: []Op{}, Stored: []string{}, Times: []int{0, 0}, Reads: [][]Op{}})
 		var evs []*Event
 		if err := json.Unmarshal(r, &evs); err != nil {
 			var c map[string]string
 			_ = json.Unmarshal(r, &c)
-			out.Put(&Event{Ev: "Crash", Err: c["crash"], Ops: []Op{}, Stored: []string{}, Times: []int{0, 0}})
+			out.Put(&Event{Ev: "Crash", Err: c["crash"], Ops: []Op{}, Stored: []string{}, Times: []int{0, 0}, Reads: [][]Op{}})
 			continue
 		}
 		for _, e := range evs {
+			if e.Reads == nil {
+				e.Reads = [][]Op{}
+			}
 			out.Put(e)
 		}
 	}
